@@ -44,7 +44,11 @@ def partition_body(ctx, case):
 
 @st.composite
 def strat_cases(draw, ctx):
-    spec = draw(scenes.sim_scene_strategy(steps=(6, 30)))
+    # half of the scenes contain lossy boxes (sigma_E and/or sigma_H): the gradient strategies rebuild the array
+    # container in several places and every copy must carry the conductivity arrays along
+    spec = draw(scenes.sim_scene_strategy(steps=(6, 30), lossy=draw(st.booleans()), n_objects=(0, 2)))
+    if spec["objects"] == [] and draw(st.booleans()):
+        spec["background"]["sigH"] = draw(st.sampled_from([1e8, 1e9]))
     T = spec["steps"]
     cfgs = []
     for _ in range(draw(st.integers(1, 2))):
